@@ -117,7 +117,10 @@ def unpack_impl(pkt, raw, offset, **k):
         cookie_hash.update(pack_code.encode('utf-8'))
         cookie_hash.update(unpack_code.encode('utf-8'))
         cookie = cookie_hash.hexdigest()
-        cookie_code = f"BISTURI_PACKET_COOKIE = '{cookie}'\n"
+        # the name differs from the one used when the cookie was the first
+        # thing written: a file (or its bytecode) that an in-place writer
+        # left half written carries that name and must never match
+        cookie_code = f"BISTURI_PACKET_COOKIE_AT_END = '{cookie}'\n"
 
         # From which file we got the packet class?
         try:
@@ -157,7 +160,7 @@ def unpack_impl(pkt, raw, offset, **k):
             # a file torn by an older version may have the first but not
             # the second
             return bool(module) and getattr(
-                module, 'BISTURI_PACKET_COOKIE', None
+                module, 'BISTURI_PACKET_COOKIE_AT_END', None
             ) == cookie and (
                 not self.generate_for_pack or hasattr(module, 'pack_impl')
             ) and (
